@@ -22,6 +22,14 @@ func isTopDir(f *File) bool {
 	return f.Name == "."
 }
 
+// rootFS is like (*os.Root).FS, but does not insist on fs.ValidPath (which
+// rejects file names that are not valid UTF-8).
+type rootFS struct {
+	root *os.Root
+}
+
+func (r rootFS) Open(name string) (fs.File, error) { return r.root.Open(name) }
+
 func (rt *Transfer) deleteFiles(fileList []*File) error {
 	if rt.IOErrors > 0 {
 		rt.Logger.Printf("IO error encountered, skipping file deletion")
@@ -36,7 +44,7 @@ func (rt *Transfer) deleteFiles(fileList []*File) error {
 		// Other rsync implementations generate a local file list and compare it
 		// with the remote file list, we re-implement the path→name mapping part
 		// of file list generation here. We could change it for consistency.
-		err := fs.WalkDir(rt.DestRoot.FS(), ".", func(path string, info fs.DirEntry, err error) error {
+		err := fs.WalkDir(rootFS{rt.DestRoot}, ".", func(path string, info fs.DirEntry, err error) error {
 			if err != nil {
 				return err
 			}
